@@ -16,8 +16,8 @@ LEAN_MODULES = ["Props.C17"]
 RULE = (
     "FULL ENUMERATION: files of 1-8 elements x every fault position k (and no fault) x {read, write} x file "
     "families {register, block, section} x {fresh path, path that already holds a longer earlier output, caller buffer (in-memory and a real file object opened by the caller) / content} x storage {text, binary} x exception "
-    "types {ValueError, KeyError, custom Exception subclasses incl. one derived from StopIteration and one with a "
-    "non-trivial constructor}. The k-th element's read/write raises a specific "
+    "types {ValueError, KeyError, TypeError, custom Exception subclasses incl. one derived from StopIteration, one from TypeError and one with a "
+    "non-trivial constructor}, plus nineteen further builtin classes (NotImplementedError and a subclass, OSError, EOFError, AttributeError, ...) on a thinner grid of positions. The k-th element's read/write raises a specific "
     "exception instance. Observed with a harness-side wrapper around builtins.open (and around the StringIO/BytesIO "
     "the reading adapter creates): the exception object reaching the caller (identity), the closed flag of every "
     "handle the framework opened, the caller buffer's closed flag / tell() / contents, the file contents on disk "
@@ -51,6 +51,20 @@ class CustomWithArgs(Exception):
 class CustomTypeError(TypeError):
     """a fault of the TypeError family (what a wrongly typed forwarded option produces inside an element)"""
 
+
+class CustomNotImplemented(NotImplementedError):
+    """what a read-only element (one that implements read() only) raises from write()"""
+
+
+# further builtin exception classes, used on a thinner grid of positions (a writer / reader loop that
+# catches one particular class "for robustness" swallows the fault or goes on after it)
+MORE_EXC = {"NotImplementedError": NotImplementedError, "CustomNotImplemented": CustomNotImplemented, "OSError": OSError,
+            "FileNotFoundError": FileNotFoundError, "EOFError": EOFError, "AttributeError": AttributeError,
+            "IndexError": IndexError, "LookupError": LookupError, "AssertionError": AssertionError,
+            "UnicodeError": UnicodeError, "RuntimeError": RuntimeError, "RecursionError": RecursionError,
+            "ZeroDivisionError": ZeroDivisionError, "OverflowError": OverflowError, "MemoryError": MemoryError,
+            "BufferError": BufferError, "NameError": NameError, "StopAsyncIteration": StopAsyncIteration,
+            "Exception": Exception}
 
 EXC = {"ValueError": ValueError, "KeyError": KeyError, "Custom": CustomFault, "CustomStop": CustomStop, "CustomWithArgs": CustomWithArgs,
        "TypeError": TypeError, "CustomTypeError": CustomTypeError}
@@ -184,7 +198,7 @@ class Recorder:
 
 def run_impl(case):
     fam, binary, n, k, direction, where = case["family"], case["binary"], case["n"], case["k"], case["direction"], case["where"]
-    exc_obj = EXC[case["exc"]]("injected fault") if k is not None else None
+    exc_obj = {**EXC, **MORE_EXC}[case["exc"]]("injected fault") if k is not None else None
     d = tempfile.mkdtemp(prefix="cfi-c17-")
     try:
         # arguments the caller forwards through File.read / File.write down to every element
@@ -343,6 +357,9 @@ def all_cases():
                                     yield {"family": fam, "binary": binary, "direction": direction, "where": where, "n": n, "k": k, "exc": exc, "field_fault": True}
                                 if direction == "read" and k is not None and exc in ("ValueError", "Custom"):
                                     yield {"family": fam, "binary": binary, "direction": direction, "where": where, "n": n, "k": k, "exc": exc, "iter_read": True}
+                    for n, k in ((1, 0), (3, 0), (3, 1), (4, 3), (8, 5)):
+                        for exc in MORE_EXC:
+                            yield {"family": fam, "binary": binary, "direction": direction, "where": where, "n": n, "k": k, "exc": exc}
 
 
 def corpus_cases():
